@@ -236,6 +236,71 @@ def r16_3(ctx, rep, ents, floor=4, site_filter=None):
     rep.notes.append("R16.3: %d Option unwrap site(s) in the analysed cones" % len(seen_sites))
 
 
+LOCK_RX = r"sync::(poison::)?(rwlock::)?RwLock::<T>::(write|read)$|sync::(poison::)?(mutex::)?Mutex::<T>::lock$"
+GUARD_TY_RX = r"RwLockWriteGuard|RwLockReadGuard|MutexGuard"
+
+
+def r16_4(ctx, rep):
+    """R16.4: the background worker executes no panic-capable site while it holds a lock that public operations unwrap."""
+    rep.rule("R16.4", "between acquiring and dropping a lock guard the flush worker reaches no explicit panic/assert!/debug_assert!, no "
+                      "arithmetic/bounds assert and no Option/Result unwrap (other than the lock acquisition itself): a panic there poisons "
+                      "the lock, and every later public operation panics on its `lock().unwrap()` - for ordinary arguments")
+    wk, _, _ = ctx.worker_entry()
+    g = ctx.graph(wk)
+    P = ctx.product(wk)
+    locks = set(P.calls(LOCK_RX))
+    rep.floor("R16.4", "lock acquisitions in the worker", len(locks), 1)
+
+    def is_guard_drop(n):
+        t = g.term(n)
+        return t["k"] == "drop" and re.search(GUARD_TY_RX, t.get("ty", "") or "")
+
+    def risky(n):
+        t = g.term(n)
+        if t["k"] == "assert" and not t["synthetic"]:
+            return "assert:%s" % t["akind"]
+        if t["k"] == "call" and n not in g.callee_inst:
+            if cmatch(t, EXPLICIT_PANIC_RX):
+                return "panic:%s" % ((t.get("macros") or ["?"])[-1])
+            if cmatch(t, r"(Option::<T>|Result::<T, E>)::(unwrap|expect|unwrap_err|expect_err)$"):
+                a = event_args(g, n)
+                # the acquisition's own poison unwrap is the thing being protected, not a new risk
+                raw = g.term(n)["args"][0] if g.term(n).get("args") else None
+                src = g.prov_operand(g.inst(n), raw) if raw else None
+                ty = g.inst(n).body["locals"][raw["p"]["l"]]["ty"] if raw and raw.get("p") else ""
+                if re.search(GUARD_TY_RX, ty):
+                    return None
+                return "unwrap"
+            if cmatch(t, MAYPANIC_RX) and not cmatch(t, r"(Option::<T>|Result::<T, E>)::"):
+                return "may-panic:%s" % cpath(t).split("::")[-1]
+        return None
+
+    def step(ms, pi, qi, learn):
+        n = P.gnode(pi)
+        if n in locks:
+            return ms + 1 if ms < 3 else ms
+        if is_guard_drop(n):
+            return max(0, ms - 1)
+        return ms
+    seen = run_monitor(P, 0, step)
+    bad = {}
+    n_under = 0
+    for (pi, ms) in seen:
+        n = P.gnode(pi)
+        if ms > 0 and n not in locks:
+            n_under += 1
+            r = risky(n)
+            if r and (g.inst(n).key, n[1]) not in bad:
+                bad[(g.inst(n).key, n[1])] = (n, r)
+    for (_k, (n, r)) in sorted(bad.items(), key=str):
+        rep.violation("R16.4", "worker|%s-under-lock" % r, "worker: %s while holding a lock" % r,
+                      "the worker can panic while it holds a lock guard (%s): the lock is poisoned and every later public operation that takes "
+                      "it panics in `.unwrap()`" % r, where=g.where(n))
+    if not bad:
+        rep.ok("R16.4", "worker lock regions", "%d acquisition(s); %d product state(s) under a guard, none panic-capable" % (len(locks), n_under),
+               where=g.where(sorted(locks)[0]) if locks else "")
+
+
 def run(ctx, rep):
     rep.rule("R16.1", "every panic-capable site (overflow/bounds/division assert, may-panic std call) in the cone of a public "
                       "operation whose operand is data-dependent on an argument, on a Types::log_index/next_log_index/payload_size "
@@ -320,6 +385,7 @@ def run(ctx, rep):
                               where=g.where(n))
     rep.floor("R16.1", "panic-capable sites examined", n_sinks, 40)
     r16_3(ctx, rep, ents)
+    r16_4(ctx, rep)
     rep.ok("R16.2", "inventory", "%d distinct argument-independent panic-capable sites in public cones (not armed)" % n_inventory,
            nontrivial=False)
     rep.notes.append("tainted sinks: %d" % n_tainted)
